@@ -116,11 +116,35 @@ def gen_jphen(seed, n):
             ev["isp"] = [[int(bool(v)) for v in row] for row in J.is_phenomena(e)]
             ev["CE"] = [F3([float(v) for v in p]) for p in J.rectangular_positions_jovian_equatorial(e)]
             ev["CS"] = [F3([float(v) for v in p]) for p in J.rectangular_positions_jovian_equatorial(e, solar=True)]
+            ev["cc"] = [fx(float(J.check_coordinates(float(p[0]), float(p[1]))))
+                        for p in J.rectangular_positions_jovian_equatorial(e)]
             ev["oc"] = "ok"
         except Exception as ex:
             z = fx(0)
-            ev.update(M=[[z] * 3] * 4, occ=[z] * 4, ecl=[z] * 4, one=[[z] * 2] * 4, isp=[[0] * 3] * 4, CE=[F3([0.0] * 3)] * 4,
+            ev.update(cc=[z] * 4, M=[[z] * 3] * 4, occ=[z] * 4, ecl=[z] * 4, one=[[z] * 2] * 4, isp=[[0] * 3] * 4, CE=[F3([0.0] * 3)] * 4,
                       CS=[F3([0.0] * 3)] * 4, oc=type(ex).__name__)
+        yield ev
+
+
+def gen_jsys(seed, n):
+    """JupiterMoons.jupiter_system_angles: (psi, node) now and one Julian century later, and the ascending node of Jupiter's
+    orbit as Jupiter.orbital_elements_mean_equinox gives it for the same instant"""
+    from pymeeus.Epoch import Epoch
+    from pymeeus.Jupiter import Jupiter
+    from pymeeus.JupiterMoons import JupiterMoons as J
+    rng = random.Random("jsys/%s" % seed)
+    for _ in range(n):
+        t = rng.uniform(2415020.5, 2488070.5)
+        ev = {"k": "jsys", "tf": t}
+        try:
+            a = J.jupiter_system_angles(Epoch(t))
+            b = J.jupiter_system_angles(Epoch(t + 36525.0))
+            el = Jupiter.orbital_elements_mean_equinox(Epoch(t))
+            ev.update(psi=fx(float(a[0])), node=fx(float(a[1])), psi2=fx(float(b[0])), node2=fx(float(b[1])),
+                      onode=fx(float(el[4])), oc="ok")
+        except Exception as ex:
+            z = fx(0)
+            ev.update(psi=z, node=z, psi2=z, node2=z, onode=z, oc=type(ex).__name__)
         yield ev
 
 
